@@ -937,7 +937,48 @@ func (c *Conn) dispatch(fr *FrameHeader) bool {
 		return true
 	}
 
-	return c.state == connStateClosed && fr.Stream() == c.closeRef
+	// After a GOAWAY the connection goes once the last request it still owed
+	// an answer has ended: stopping at the first frame on last-stream-id cut
+	// off that stream's own DATA and every lower stream still in progress.
+	return c.state == connStateClosed && c.inFlight() == 0
+}
+
+// inFlight is the number of requests waiting for a response.
+func (c *Conn) inFlight() int {
+	c.reqLck.Lock()
+	n := len(c.reqQueued)
+	c.reqLck.Unlock()
+
+	return n
+}
+
+// ErrUnprocessed resolves a request whose stream the server disclaimed with
+// GOAWAY: it was above last-stream-id, so it was not processed and it is safe
+// to send it again on another connection.
+var ErrUnprocessed = errors.New("the server went away without processing the request")
+
+// failAbove ends every request on a stream above last.
+func (c *Conn) failAbove(last uint32) {
+	type item struct {
+		id  uint32
+		ctx *Ctx
+	}
+
+	var gone []item
+
+	c.reqLck.Lock()
+
+	for id, ctx := range c.reqQueued {
+		if id > last {
+			gone = append(gone, item{id, ctx})
+		}
+	}
+
+	c.reqLck.Unlock()
+
+	for _, it := range gone {
+		c.finish(it.ctx, it.id, ErrUnprocessed)
+	}
 }
 
 // maxHeaderBlock bounds the header block a server can make the client buffer
@@ -1487,13 +1528,18 @@ loop:
 			// connection, so the client must move to a fresh one.
 			atomic.StoreUint32(&c.goAway, 1)
 
-			if ga.stream == 0 {
+			c.closeRef = ga.stream
+			c.state = connStateClosed
+
+			// Streams above last-stream-id were not and will not be processed
+			// (RFC 7540 6.8): their requests end now, with an error that says
+			// they can be sent again, instead of waiting for a timeout. The
+			// ones at or below it are left to complete.
+			c.failAbove(ga.stream)
+
+			if c.inFlight() == 0 {
 				_ = c.c.Close()
-				err = ga
-			} else {
-				// wait for the streams to complete
-				c.closeRef = ga.stream
-				c.state = connStateClosed
+				err = ga.Copy()
 			}
 
 			break loop
